@@ -226,10 +226,11 @@ def c18(ctx):
     replay_cmd(ctx, binp, "replay-iseq", vec, "iseq", {"result", "panic", "oob"})
     lib_traces(ctx, "sub", "eq,prefix,suffix", "api", 1500 if ctx.quick else 12000, "cmp", forces=("avx2",))
     ctx.evaluations += sum_exec(ctx, ["iseq_exec"])
+    extra = tlaps_supplement(ctx, "IsEqualUnbounded", ("InitInv", "NextInv", "Safety"))
     return C.finish(ctx, "model_checking",
                     "TLC enumerates all pairs of binary sequences with lengths 0..MaxLen (every tail residue, every content) and all equal-length pairs up to LongLen "
                     "differing at <= 2 positions; the L-model of is_equal_raw is checked against sequence equality and the wrappers against starts_with/ends_with; "
-                    "every pair is replayed on is_equal/is_equal_raw/is_prefix/is_suffix with value tables, 8x8 relative alignments and both operands abutting PROT_NONE pages; distinct = distinct pairs")
+                    "every pair is replayed on is_equal/is_equal_raw/is_prefix/is_suffix with value tables, 8x8 relative alignments and both operands abutting PROT_NONE pages; distinct = distinct pairs", extra_cov=extra)
 
 
 SUBC = dict(HASHBITS=4, MASKBITS=4, PAIRCAP=4, MASKKIND="sensible", MIN_SKIPS=2, MIN_SKIP_BYTES=2, CTRMAX=1000000, MulSaturates=True, MODK=2,
